@@ -95,7 +95,28 @@ func (this *zzCanaryKeyed) CompareTo(o Value) int {
 	}
 	return 0
 }
-`, Expect: []core.CanaryExpect{{Rule: "C20.canon", Sub: "zzCanaryKeyed.CompareTo walk"}, {Rule: "C20.canon", Sub: "zzCanaryKeyed.CompareTo keys"}}}}
+`, Expect: []core.CanaryExpect{{Rule: "C20.canon", Sub: "zzCanaryKeyed.CompareTo walk"}, {Rule: "C20.canon", Sub: "zzCanaryKeyed.CompareTo keys"}}}, {RelDir: "lang/value", Name: "c20lock", Src: `package value
+
+import "sync"
+
+type zzCanaryLockedList struct {
+	mu    sync.Mutex
+	table []int
+}
+
+// locks both operands: x.zzEquals(x) never returns
+func (this *zzCanaryLockedList) zzEquals(o interface{}) bool {
+	that, ok := o.(*zzCanaryLockedList)
+	if !ok {
+		return false
+	}
+	this.mu.Lock()
+	defer this.mu.Unlock()
+	that.mu.Lock()
+	defer that.mu.Unlock()
+	return len(this.table) == len(that.table)
+}
+`, Expect: []core.CanaryExpect{{Rule: "C20.reflexive", Sub: "zzCanaryLockedList).zzEquals"}}}}
 }
 
 func valueImplementers(p *core.Program) []*types.Named {
@@ -144,6 +165,8 @@ func runC20(p *core.Program, r *core.Report) {
 	r.Rule("C20.sizes", "container Equals/CompareTo reach their element loop only after the two sizes compared equal (a one-sided walk over the receiver's elements cannot see extra elements on the other side)", 6)
 	r.Rule("C20.canon", "comparison of a keyed container walks sorted key sequences and orders the two operands' keys against each other: the result does not depend on which operand is the receiver or on insertion order", 4)
 	r.Rule("C20.cache", "what a keyed container remembers for its comparison (a sorted key list) is reset by every method that changes its table", 2)
+	r.Rule("C20.reflexive", "comparing a value with itself comes back: no method of a value type holds the non-re-entrant lock of its receiver while taking the same lock of the other operand without an identity test first", 0)
+	selfLockRule(p, r, "C20.reflexive", []string{"lang/value"})
 	r.Rule("C20.fresh", "every value the factory hands out for decoding is freshly allocated: a decoded value is not overwritten by the next decode (it stays equal to what was encoded)", 20)
 	checkFactoryFresh(p, r, "C20.fresh", "lang/value", "CreateValue")
 	r.Rule("C20.width", "a payload written without a length and read back with a fixed one has that width wherever it is stored: a value equals its own decoded encoding", 1)
